@@ -284,13 +284,25 @@ def replay_c18(case):
 # --------------------------------------------------------------------------
 # C17
 
+def key_of(iface, desc):
+    """the name the interface lists this description under (its own
+    __name__ may differ: one-word Attribute(...) arguments, aliases)"""
+    if isinstance(desc, str):
+        return desc
+    try:
+        for k, d in iface.namesAndDescriptions(all=True):
+            if d is desc:
+                return k
+    except Exception:       # noqa
+        pass
+    return desc.getName()
+
+
 def exc_key(e):
     if isinstance(e, BrokenMethodImplementation):
-        m = e.method
-        return [type(e).__name__, m if isinstance(m, str) else m.getName()]
+        return [type(e).__name__, key_of(e.interface, e.method)]
     if isinstance(e, BrokenImplementation):
-        n = e.name
-        return [type(e).__name__, n if isinstance(n, str) else n.getName()]
+        return [type(e).__name__, key_of(e.interface, e.name)]
     if isinstance(e, DoesNotImplement):
         return [type(e).__name__, '']
     return [type(e).__name__, str(e)]
@@ -390,9 +402,12 @@ def replay_agg(case):
     ns['Attribute'] = __import__('zope.interface').interface.Attribute
     ns['opaque'] = _Opaque()
     base, own, cls, init = [], [], [], []
-    for a in case['attrs']:
+    for ai, a in enumerate(case['attrs']):
+        # a one-word first argument is the description's __name__, not its
+        # doc: the key the interface lists the attribute under is what counts
+        doc = ('doc of %s' if ai % 2 else 'Docof%s') % a['name']
         (base if a['inbase'] else own).append(
-            "    %s = Attribute('doc of %s')\n" % (a['name'], a['name']))
+            "    %s = Attribute(%r)\n" % (a['name'], doc))
         if a['st'] == 'present':
             if vtype == 'c':
                 cls.append('    %s = 1\n' % a['name'])
@@ -445,6 +460,20 @@ def replay_agg(case):
                              C2()))
         else:
             variants.append(('verifyObject', verifyObject, C()))
+        # the candidate object may itself be a class (one that PROVIDES the
+        # interface): its methods live on the metaclass, its attributes on
+        # the class
+        Meta = type('Meta', (type,), {
+            k: v2 for k, v2 in C.__dict__.items()
+            if k in [m['name'] for m in case['meths']]})
+        K2 = Meta('K2', (), {})
+        for a in case['attrs']:
+            if a['st'] == 'present':
+                setattr(K2, a['name'], 1)
+        if declared:
+            directlyProvides(K2, I)
+        variants.append(('verifyObject (a class object as the candidate)',
+                         verifyObject, K2))
     for name, fut, cand in variants:
         evaluations += 1
         got = run_verify(fut, I, cand, tent)
